@@ -6,14 +6,23 @@ import ArcSwapModel.Tie.LibIntoInner
 import ArcSwapModel.Tie.LibSwap
 import ArcSwapModel.Tie.LibStore
 import ArcSwapModel.Tie.HybridCas
+import ArcSwapModel.Inv.Alive
 
 /-!
-# C01 — no use-after-free (partial: the mechanism lemmas; the global invariant is not proved yet)
+# C01 — no use-after-free (partial: containers and handles keep their value alive — global theorem;
+borrowed guards — mechanism lemmas)
 
 The full statement is `Reachable st → st.sh.fault ≠ some (.uaf _ _)` together with "every handle
 denotes a live object of the identity it was created for".  It follows from a global invariant with
-an exact accounting clause and a hazard clause (DESIGN §3.1) that is not proved yet.  What is
-proved are the facts each clause's preservation rests on — each for every shared state, i.e. for
+an exact accounting clause and a hazard clause (DESIGN §3.1).  The accounting clause is proved
+(`Inv/Alive.lean`, from the ledger of C02 and the slot-holder invariants, by counting the holders):
+`C01_count_covers_containers_and_handles` — in the end state of every execution that keeps the
+program discipline, has no successful hand-over and raises no fault, the strong count of every value
+is at least the number of containers holding it plus the number of handles denoting it; so the
+container's own stored copy, the result of a full load and a previous value returned by a writer are
+alive (`C01_stored_value_alive`, `C01_handle_value_alive`).  The hazard clause (a *borrowed* guard's
+value is alive: the slot is seen by every writer that replaces the value) is not proved as a global
+invariant.  What is proved for it are the facts its preservation rests on — each for every shared state, i.e. for
 every behaviour of the other threads:
 
 1. **publish, then confirm**: a load returns a borrowed guard (one with a debt) only from the
@@ -137,5 +146,35 @@ theorem replacement_only_from_named_envelope (cfg : Cfg) (c : Nat) (s : Shared) 
   · split at h
     · rename_i hx; simp only [LP.fr1.injEq] at h; rw [← h.2]; exact hx
     · cases h
+
+/-! ## The accounting clause, globally (`Inv/Alive.lean`) -/
+
+/-- **containers and handles are counted**: for every value, in the end state of every execution
+    that keeps the program discipline (`EnvRun0`), has no successful hand-over and ends without a
+    fault: strong count ≥ containers holding it + handles denoting it -/
+theorem C01_count_covers_containers_and_handles (K N T : Nat) (hK : 0 < K) (cfg : Cfg) (progs : Nat → List (String × Op))
+    (sched : List (Nat × Bool)) (he : EnvRun0 K N T (State.initial cfg progs) sched)
+    (hf : (run (State.initial cfg progs) sched).sh.fault = none) (a : Nat) (ha : a ≠ 0) :
+    sumN (fun c => ind ((run (State.initial cfg progs) sched).sh.cells c = some a)) N +
+      sumN (fun h => ind ((run (State.initial cfg progs) sched).sh.hreg h = some a)) N ≤
+    ((run (State.initial cfg progs) sched).sh.heap a).cnt :=
+  count_covers_containers_and_handles K N T hK cfg progs sched he hf a ha
+
+/-- the container's own stored copy keeps the value alive -/
+theorem C01_stored_value_alive (K N T : Nat) (hK : 0 < K) (cfg : Cfg) (progs : Nat → List (String × Op))
+    (sched : List (Nat × Bool)) (he : EnvRun0 K N T (State.initial cfg progs) sched)
+    (hf : (run (State.initial cfg progs) sched).sh.fault = none) (a : Nat) (ha : a ≠ 0)
+    (c : Nat) (hc : c < N) (hcell : (run (State.initial cfg progs) sched).sh.cells c = some a) :
+    1 ≤ ((run (State.initial cfg progs) sched).sh.heap a).cnt :=
+  stored_value_counted K N T hK cfg progs sched he hf a ha c hc hcell
+
+/-- a handle (full load, previous value of `swap`/`compare_and_swap`/`rcu`/`into_inner`) keeps the
+    value alive -/
+theorem C01_handle_value_alive (K N T : Nat) (hK : 0 < K) (cfg : Cfg) (progs : Nat → List (String × Op))
+    (sched : List (Nat × Bool)) (he : EnvRun0 K N T (State.initial cfg progs) sched)
+    (hf : (run (State.initial cfg progs) sched).sh.fault = none) (a : Nat) (ha : a ≠ 0)
+    (h : Nat) (hh : h < N) (hreg : (run (State.initial cfg progs) sched).sh.hreg h = some a) :
+    1 ≤ ((run (State.initial cfg progs) sched).sh.heap a).cnt :=
+  handle_value_counted K N T hK cfg progs sched he hf a ha h hh hreg
 
 end C01
